@@ -55,6 +55,7 @@ func (bitcask *BitCask) homeIsNotExist(home string) error {
 
 	bitcask.CurIndex = 0
 	bitcask.CurOffset = 0
+	verifCrashPointIdx("open.caskdir", bitcask.BitCaskIndex)
 
 	path := bitcask.path(bitcask.CurIndex)
 	return FileUtilsCreateFile(path)
@@ -111,6 +112,8 @@ func NewBitCask(home string, index int, levelDB *leveldb.LevelDBDatabase) (*BitC
 }
 
 func (bitcask *BitCask) Put(flag uint32, key []byte, val []byte) error {
+	verifCrashPoint("cask.put")
+	defer verifCrashPoint("cask.done")
 	bitcask.RW.Lock()
 	defer bitcask.RW.Unlock()
 
@@ -129,6 +132,7 @@ func (bitcask *BitCask) Put(flag uint32, key []byte, val []byte) error {
 	if err != nil {
 		return err
 	} else {
+		verifCrashPoint("cask.pos")
 		bitcask.CurOffset += length
 		offset = uint32(int(bitcask.CurOffset) | bitcask.CurIndex)
 		return leveldb.SetCurrentPos(bitcask.LevelDB, bitcask.BitCaskIndex, offset)
